@@ -28,6 +28,7 @@ import (
 	"fmt"
 	"go/ast"
 	"go/token"
+	"go/types"
 	"strconv"
 	"strings"
 )
@@ -46,6 +47,15 @@ type fsTarget struct {
 	funcs          map[string]fsCallee // package-level callees by Go text ("os.CreateTemp")
 	methods        map[string]fsCallee // methods on local variables by method name ("Close")
 	dropCalls      []string            // callees without effect on behaviour (hooks, logging)
+	monad          string              // name of the monad (default FS)
+	dropArgs       []string            // identifiers dropped from every argument list (context.Context values)
+	resultTypes    []string            // Lean types of NAMED results that are not errors, in order of appearance
+	zeroValues     map[string]string   // Go type text -> Lean text of its zero value WITH type ascription (`var x T`, `T{}`)
+	literals       map[string]string   // Go type text of a composite literal -> Lean text (the fields are NOT translated:
+	// an abstraction, e.g. an error value of which only the kind matters)
+	asserts map[string]string // interface type text -> Lean function: `v, ok := x.(T)` becomes `let (v, ok) := f x`
+	asFuncs map[string]string // Go type text of `var v T` -> Lean function f : Option Err -> Option _ :
+	// `errors.As(e, &v)` reads `(f e).isSome`, and every later use of v reads `(f e)` (v must have no other assignment)
 }
 
 type fsScope struct {
@@ -62,6 +72,29 @@ type fsTr struct {
 	assigned map[string]int    // Go identifier -> number of assignments after its declaration
 	usedCons map[string]bool
 	out      strings.Builder
+	hasDefer bool
+	mutable  map[string]bool   // Lean names introduced with `let mut`
+	varTypes map[string]string // Go name -> Go type text of `var x T`
+	asSubst  map[string]string // Go name -> Lean text standing for it after errors.As(e, &name)
+	loggers  map[string]bool   // locals bound to the result of a dropped call
+}
+
+func (g *fsTr) monad() string {
+	if g.t.monad != "" {
+		return g.t.monad
+	}
+	return "FS"
+}
+
+func (g *fsTr) isDroppedArg(e ast.Expr) bool {
+	if id, ok := e.(*ast.Ident); ok {
+		for _, d := range g.t.dropArgs {
+			if d == id.Name {
+				return true
+			}
+		}
+	}
+	return false
 }
 
 func (g *fsTr) fail(n ast.Node, format string, a ...any) {
@@ -110,6 +143,11 @@ func (g *fsTr) lookup(id *ast.Ident) (string, bool) {
 
 func (g *fsTr) dropped(c *ast.CallExpr) bool {
 	name := callName(c)
+	if sel, ok := c.Fun.(*ast.SelectorExpr); ok {
+		if id, ok := sel.X.(*ast.Ident); ok && g.loggers[id.Name] {
+			return true
+		}
+	}
 	for _, d := range g.t.dropCalls {
 		if name == d || strings.HasPrefix(name, d+".") {
 			return true
@@ -152,13 +190,24 @@ func (g *fsTr) call(c *ast.CallExpr) (string, fsCallee) {
 		}
 		return fmt.Sprintf("(some (GoLite.errorf %s))", leanStr(format)), fsCallee{nres: 1}
 	}
+	if name == "errors.New" {
+		if bl, ok := c.Args[0].(*ast.BasicLit); ok && bl.Kind == token.STRING && len(c.Args) == 1 {
+			v, _ := strconv.Unquote(bl.Value)
+			return fmt.Sprintf("(some (GoLite.errorf %s))", leanStr(v)), fsCallee{nres: 1}
+		}
+		g.fail(c, "errors.New with a computed text")
+	}
 	var ce fsCallee
 	var args []string
 	found := false
 	if ce, found = g.t.funcs[name]; !found {
 		if sel, ok := c.Fun.(*ast.SelectorExpr); ok {
 			if id, ok := sel.X.(*ast.Ident); ok {
-				if l, isLocal := g.lookup(id); isLocal {
+				if sub, isAs := g.asSubst[id.Name]; isAs {
+					if ce, found = g.t.methods[sel.Sel.Name]; found {
+						args = append(args, sub)
+					}
+				} else if l, isLocal := g.lookup(id); isLocal {
 					if ce, found = g.t.methods[sel.Sel.Name]; found {
 						args = append(args, l)
 					}
@@ -167,9 +216,22 @@ func (g *fsTr) call(c *ast.CallExpr) (string, fsCallee) {
 		}
 	}
 	if !found {
+		// a method on a value reached through fields (`d.Digest.String()`)
+		if sel, ok := c.Fun.(*ast.SelectorExpr); ok {
+			if _, isSel := sel.X.(*ast.SelectorExpr); isSel {
+				if ce, found = g.t.methods[sel.Sel.Name]; found {
+					args = append(args, g.expr(sel.X))
+				}
+			}
+		}
+	}
+	if !found {
 		g.fail(c, "call of %s: not a configured callee", name)
 	}
 	for _, a := range c.Args {
+		if g.isDroppedArg(a) {
+			continue
+		}
 		args = append(args, g.expr(a))
 	}
 	s := ce.lean
@@ -190,6 +252,9 @@ func (g *fsTr) expr(e ast.Expr) string {
 		if x.Name == "true" || x.Name == "false" {
 			return x.Name
 		}
+		if sub, ok := g.asSubst[x.Name]; ok {
+			return sub
+		}
 		if l, ok := g.lookup(x); ok {
 			return l
 		}
@@ -205,6 +270,23 @@ func (g *fsTr) expr(e ast.Expr) string {
 			return leanStr(v)
 		case token.INT:
 			return "(" + x.Value + " : Int)"
+		}
+	case *ast.SelectorExpr:
+		// a field of a local (never a package-qualified name: those only occur as callees and types)
+		if root := fsRoot(x); root != nil {
+			if _, ok := g.lookup(root); ok {
+				return g.expr(x.X) + "." + x.Sel.Name
+			}
+		}
+	case *ast.CompositeLit:
+		ty := types.ExprString(x.Type)
+		if l, ok := g.t.literals[ty]; ok {
+			return l
+		}
+		if len(x.Elts) == 0 {
+			if z, ok := g.t.zeroValues[ty]; ok {
+				return z
+			}
 		}
 	case *ast.UnaryExpr:
 		if x.Op == token.NOT {
@@ -236,6 +318,23 @@ func (g *fsTr) expr(e ast.Expr) string {
 			return "(" + g.expr(x.X) + " || " + g.expr(x.Y) + ")"
 		}
 	case *ast.CallExpr:
+		if callName(x) == "errors.As" && len(x.Args) == 2 {
+			if u, ok := x.Args[1].(*ast.UnaryExpr); ok && u.Op == token.AND {
+				if id, ok := u.X.(*ast.Ident); ok {
+					f, known := g.t.asFuncs[g.varTypes[id.Name]]
+					if !known {
+						g.fail(x, "errors.As into %s of type %q: no asFuncs entry", id.Name, g.varTypes[id.Name])
+					}
+					if g.assigned[id.Name] > 0 {
+						g.fail(x, "errors.As into %s, which is also assigned elsewhere", id.Name)
+					}
+					sub := "(" + f + " " + g.expr(x.Args[0]) + ")"
+					g.asSubst[id.Name] = sub
+					return sub + ".isSome"
+				}
+			}
+			g.fail(x, "errors.As with a target that is not `&local`")
+		}
 		s, ce := g.call(x)
 		if ce.effect {
 			return "(← " + s + ")"
@@ -246,14 +345,32 @@ func (g *fsTr) expr(e ast.Expr) string {
 	return ""
 }
 
+func fsRoot(e ast.Expr) *ast.Ident {
+	for {
+		switch x := e.(type) {
+		case *ast.Ident:
+			return x
+		case *ast.SelectorExpr:
+			e = x.X
+		default:
+			return nil
+		}
+	}
+}
+
 // pureExpr: no effect anywhere inside (conditions of deferred bodies may contain effects; the
 // arguments of a deferred call may not)
-func (g *fsTr) frozen(e ast.Expr) bool {
+func (g *fsTr) frozen(e ast.Expr) bool { return g.quiet(e, true) }
+
+// effectFree: evaluating e performs no call of an effectful callee
+func (g *fsTr) effectFree(e ast.Expr) bool { return g.quiet(e, false) }
+
+func (g *fsTr) quiet(e ast.Expr, fixed bool) bool {
 	ok := true
 	ast.Inspect(e, func(n ast.Node) bool {
 		switch x := n.(type) {
 		case *ast.Ident:
-			if g.assigned[x.Name] > 0 {
+			if fixed && g.assigned[x.Name] > 0 {
 				ok = false
 			}
 		case *ast.CallExpr:
@@ -282,7 +399,21 @@ func (g *fsTr) assign(ind int, x *ast.AssignStmt) {
 	}
 	var rhs string
 	nres := 1
-	if c, ok := x.Rhs[0].(*ast.CallExpr); ok {
+	if c, ok := x.Rhs[0].(*ast.CallExpr); ok && g.dropped(c) && x.Tok == token.DEFINE && len(x.Lhs) == 1 {
+		// `logger := log.GetLogger(ctx)`: the local is a logger under whatever name
+		if id, ok := x.Lhs[0].(*ast.Ident); ok {
+			g.loggers[id.Name] = true
+			return
+		}
+	}
+	if ta, ok := x.Rhs[0].(*ast.TypeAssertExpr); ok && len(x.Lhs) == 2 && ta.Type != nil {
+		f, known := g.t.asserts[types.ExprString(ta.Type)]
+		if !known {
+			g.fail(x, "type assertion to %s: no asserts entry", exprText(ta.Type))
+		}
+		rhs = "(← (" + f + " " + g.expr(ta.X) + "))"
+		nres = 2
+	} else if c, ok := x.Rhs[0].(*ast.CallExpr); ok {
 		s, ce := g.call(c)
 		rhs = s
 		if ce.effect {
@@ -309,7 +440,16 @@ func (g *fsTr) assign(ind int, x *ast.AssignStmt) {
 		}
 		_, here := g.scope.names[id.Name]
 		if x.Tok == token.DEFINE && !here {
-			pat = append(pat, g.declare(id.Name))
+			l := g.declare(id.Name)
+			if g.assigned[id.Name] > 0 {
+				// assigned again later: bound immutably first, then copied into a `let mut`
+				tmp := l + "_init"
+				pat = append(pat, tmp)
+				later = append(later, fmt.Sprintf("let mut %s := %s", l, tmp))
+				g.mutable[l] = true
+			} else {
+				pat = append(pat, l)
+			}
 			continue
 		}
 		cur, ok := g.lookup(id)
@@ -317,9 +457,12 @@ func (g *fsTr) assign(ind int, x *ast.AssignStmt) {
 			g.fail(x, "assignment to undeclared %s", id.Name)
 		}
 		for _, nm := range g.named {
-			if nm == id.Name {
-				g.fail(x, "assignment to the named result %s (only `return` may set it)", id.Name)
+			if nm == id.Name && g.hasDefer {
+				g.fail(x, "assignment to the named result %s in a function with defer (only `return` may set it)", id.Name)
 			}
+		}
+		if !g.mutable[cur] {
+			g.fail(x, "assignment to %s, which was not introduced as mutable", id.Name)
 		}
 		tmp := fmt.Sprintf("%s_new%d", cur, i)
 		pat = append(pat, tmp)
@@ -458,7 +601,7 @@ func (g *fsTr) stmts(ind int, list []ast.Stmt, inDeferred bool) {
 			g.push()
 			g.stmts(ind+2, list[i+1:], false)
 			g.pop()
-			g.line(ind+2, ": FS ("+g.t.ret+"))")
+			g.line(ind+2, ": "+g.monad()+" ("+g.t.ret+"))")
 			for j, n := range g.named {
 				g.scope.names[n] = rs[j]
 			}
@@ -467,6 +610,31 @@ func (g *fsTr) stmts(ind int, list []ast.Stmt, inDeferred bool) {
 			return
 		case *ast.AssignStmt:
 			g.assign(ind, x)
+		case *ast.DeclStmt:
+			gd, ok := x.Decl.(*ast.GenDecl)
+			if !ok || gd.Tok != token.VAR {
+				g.fail(x, "declaration other than var")
+			}
+			for _, sp := range gd.Specs {
+				vs := sp.(*ast.ValueSpec)
+				if len(vs.Values) != 0 || vs.Type == nil {
+					g.fail(x, "var with an initialiser")
+				}
+				ty := types.ExprString(vs.Type)
+				for _, n := range vs.Names {
+					g.varTypes[n.Name] = ty
+					if _, isAs := g.t.asFuncs[ty]; isAs {
+						continue // only ever read through errors.As (checked there)
+					}
+					z, ok := g.t.zeroValues[ty]
+					if !ok {
+						g.fail(x, "var of type %s: no zeroValues entry", ty)
+					}
+					l := g.declare(n.Name)
+					g.mutable[l] = true
+					g.line(ind, fmt.Sprintf("let mut %s := %s", l, z))
+				}
+			}
 		case *ast.ExprStmt:
 			c, ok := x.X.(*ast.CallExpr)
 			if !ok {
@@ -474,7 +642,7 @@ func (g *fsTr) stmts(ind int, list []ast.Stmt, inDeferred bool) {
 			}
 			if g.dropped(c) {
 				for _, a := range c.Args {
-					if !g.frozen(a) {
+					if !g.effectFree(a) {
 						g.fail(x, "argument %s of a dropped call has an effect", exprText(a))
 					}
 				}
@@ -536,7 +704,14 @@ func (g *fsTr) stmts(ind int, list []ast.Stmt, inDeferred bool) {
 func fsTranslate(t *fsTarget) (string, map[string]bool) {
 	f := parseFile(t.file)
 	fd := mustFunc(f, t.file, t.recv, t.fn)
-	g := &fsTr{t: t, consts: consts(f), used: map[string]int{}, assigned: map[string]int{}, usedCons: map[string]bool{}}
+	g := &fsTr{t: t, consts: consts(f), used: map[string]int{}, assigned: map[string]int{}, usedCons: map[string]bool{},
+		mutable: map[string]bool{}, varTypes: map[string]string{}, asSubst: map[string]string{}, loggers: map[string]bool{}}
+	ast.Inspect(fd.Body, func(n ast.Node) bool {
+		if _, ok := n.(*ast.DeferStmt); ok {
+			g.hasDefer = true
+		}
+		return true
+	})
 	g.push()
 	for _, p := range fd.Type.Params.List {
 		for _, n := range p.Names {
@@ -559,22 +734,41 @@ func fsTranslate(t *fsTarget) (string, map[string]bool) {
 		return true
 	})
 	g.line(0, fmt.Sprintf("/-- translated from `%s` (%s), %d statements -/", t.fn, t.file, nstmts))
-	g.line(0, fmt.Sprintf("def %s %s : FS (%s) := do", t.leanName, t.params, t.ret))
+	g.line(0, fmt.Sprintf("def %s %s : %s (%s) := do", t.leanName, t.params, g.monad(), t.ret))
 	if fd.Type.Results != nil {
 		for _, r := range fd.Type.Results.List {
 			for _, n := range r.Names {
-				// a named result starts as the zero value of its type; only error-like (nil-able) ones are accepted
+				// a named result starts as the zero value of its type
 				id, ok := r.Type.(*ast.Ident)
-				if !ok || id.Name != "error" {
-					g.fail(r, "named result %s of a type other than error", n.Name)
+				isErr := ok && id.Name == "error"
+				kw := "let"
+				if !g.hasDefer {
+					kw = "let mut" // without defer a named result is an ordinary local
+				}
+				if !isErr {
+					if g.hasDefer {
+						g.fail(r, "named result %s of a type other than error in a function with defer", n.Name)
+					}
+					z, known := t.zeroValues[types.ExprString(r.Type)]
+					if !known {
+						g.fail(r, "named result %s of type %s: no zeroValues entry", n.Name, exprText(r.Type))
+					}
+					g.named = append(g.named, n.Name)
+					l := g.declare(n.Name)
+					g.mutable[l] = true
+					g.line(1, fmt.Sprintf("%s %s := %s", kw, l, z))
+					continue
 				}
 				g.named = append(g.named, n.Name)
 				l := g.declare(n.Name)
-				g.line(1, fmt.Sprintf("let %s : Option GoLite.Err := none", l))
+				if !g.hasDefer {
+					g.mutable[l] = true
+				}
+				g.line(1, fmt.Sprintf("%s %s : Option GoLite.Err := none", kw, l))
 			}
 		}
 	}
-	g.push()
+	// parameters, results and the top level of the body share one scope (Go's function block)
 	g.stmts(1, fd.Body.List, false)
 	return g.out.String(), g.usedCons
 }
